@@ -160,6 +160,10 @@ int main(void) {
         } else if (!strcmp(cmd, "pathdel")) {
             printf(cgio_path_delete(NULL) ? "err other\n" : "ok\n");
         } else if (!strcmp(cmd, "dbg") || !strcmp(cmd, "decoy")) {
+            if (cmd[1] == 'b' && getenv("C08_DBG")) {      /* development aid: which descriptors are open (stderr only) */
+                char lk[64], tg[600];
+                for (int fd = 3; fd < 64; fd++) { snprintf(lk, sizeof lk, "/proc/self/fd/%d", fd); ssize_t k = readlink(lk, tg, sizeof tg - 1); if (k > 0) { tg[k] = 0; fprintf(stderr, "fd %d -> %s\n", fd, tg); } }
+            }
             printf("ok\n");
         } else if (!strcmp(cmd, "unlinkf")) {
             sscanf(line, "%*s %s", a[0]); unhex(a[0], buf);
@@ -252,10 +256,13 @@ int main(void) {
         } else if (!strcmp(cmd, "rd")) {
             sscanf(line, "%*s %d %d %s", &fi, &u, a[0]);
             if (BAD(fi) || H(fi, u) < 0) { printf("err other\n"); continue; }
-            double id = H(fi, u); int e = 0;
-            if (!(a[0][0] == '-' && !a[0][1])) { unhex(a[0], buf); e = cgio_get_node_id(F[fi].cgio, id, (char *)buf, &id); }
+            double id = H(fi, u); int e = 0, mine = 0;
+            if (!(a[0][0] == '-' && !a[0][1])) { unhex(a[0], buf); e = cgio_get_node_id(F[fi].cgio, id, (char *)buf, &id); mine = !e; }
             if (!e) e = read_through(F[fi].cgio, id, 1);
             if (e) printf("err %s\n", eclass(e));
+            /* a well-behaved client: an id looked up for this read is given back (on HDF5 it may live in a linked-to
+               file, which would otherwise stay open inside libhdf5 after every cgio_close_file) */
+            if (mine) cgio_release_id(F[fi].cgio, id);
         } else if (!strcmp(cmd, "lnk")) {
             sscanf(line, "%*s %d %d", &fi, &u);
             if (BAD(fi) || H(fi, u) < 0) { printf("err other\n"); continue; }
